@@ -52,6 +52,13 @@ structure Inputs where
       commit left that socket open, for the garbage collector to close).  The harness probes the real
       `_connect_proxy` and passes what it finds. -/
   pclose : Bool := true
+  /-- code shape (seeded change C19-r4m2): the socket is put back into blocking mode — `sock.settimeout(None)` —
+      BEFORE `_connect_proxy` has written the CONNECT request and read the proxy's answer (e.g. at the end of
+      `_connect_sock`), so that the negotiation runs on a socket without a timeout.  `false` = the pinned order:
+      `_connect_sock` sets `sock.settimeout(30)` before `connect()`, and `_connect` calls `sock.settimeout(None)`
+      only after `_connect_proxy` / `_connect_sock` have returned (`Gen.settimeoutNoneIn`, `Gen.connectCallOrder`;
+      `C19Timeout.source_has_pinned_order`).  The harness probes the real `_connect` and passes what it finds. -/
+  blockBeforeTunnel : Bool := false
 
 /-- `_connect_sock` returned a socket (it did not raise `_SocketFail`) -/
 def sockOk (i : Inputs) : Bool :=
@@ -236,5 +243,54 @@ def view (i : Inputs) : Item → Option Proxy.Io
   | .core o => viewCore i o
   | .io x => some x
   | .sock _ => none
+
+/-! ### the socket's timeout mode during the proxy negotiation: can the attempt block for ever?
+
+  `recv(1024)` on a socket with a timeout raises `socket.timeout` when the peer stays silent that long; on a
+  socket in blocking mode (`settimeout(None)`) it never returns.  `_connect_sock` gives every socket a timeout of
+  30 s before `connect()`.  In `composed` (the pinned order) a silent read is therefore `ReadOutcome.timeout`:
+  `socket.timeout` → `ConnectFail`.  `attempt` is the composed connection for BOTH code shapes: with
+  `blockBeforeTunnel` the read to which the proxy never answers does not return — nothing happens after it, no
+  event is ever yielded again (the harness reports `P:R:BLOCKS-FOREVER HUNG:…`). -/
+
+/-- the timeout of the socket while `_connect_proxy` writes the CONNECT request and reads the answer: the 30 s
+    that `_connect_sock` set before `connect()`, unless `settimeout(None)` has already been called -/
+def negotiationTimeout (i : Inputs) : Option Nat := if i.blockBeforeTunnel then none else some 30
+
+/-- `_connect_proxy` reaches a `recv` to which the proxy never answers (a `timeout` step of the read script, or
+    its end, before the reply is complete): the Proxy model's failure kind `timeout`.  (It needs: a proxy chosen,
+    a usable proxy URL, `_connect_sock` connecting, a target host, the CONNECT request written —
+    `C19Timeout.silentRead_iff`.) -/
+def silentRead (i : Inputs) : Bool :=
+  match Proxy.proxyChoice i.ws with
+  | some purl =>
+    match (Proxy.connectProxy i.ws (proxyEnv i) purl).2 with
+    | .error .timeout => true
+    | _ => false
+  | none => false
+
+/-- a `recv` of this connection attempt never returns -/
+def hangs (i : Inputs) : Bool := (negotiationTimeout i).isNone && silentRead i
+
+/-- how one connection attempt ends -/
+inductive Attempt
+  /-- the event iterator comes to an end (or the application abandons it, or the environment script runs out):
+      the composed trace -/
+  | ended (trace : List Item)
+  /-- a `recv` on a socket without a timeout, and the proxy stays silent: the call never returns.  `before` is
+      everything that had happened until that call; nothing follows — neither `ConnectFail` nor `Connected` -/
+  | hung (before : List Item)
+  deriving Repr, DecidableEq
+
+/-- **The composed connection with the socket's timeout mode.**  `Connecting` (the application reacts), then
+    `_connect()`; when a read of `_connect_proxy` blocks for ever, that is the end: the trace is `Connecting`, the
+    application's reaction, and the connection phase up to — not including — the silent read (the last item of
+    the log, `read timeout` in the pinned order).  Otherwise `composed`. -/
+def attempt (base : Core.Cfg) (i : Inputs) (react : Core.React) (env : List Core.EnvStep) : Attempt :=
+  match Core.yieldEv .connecting { cfg := coreCfg base i, react := react, env := env } with
+  | .err _ _ => .ended (composed base i react env)
+  | .ok _ s1 =>
+    if hangs i then .hung (s1.trace.reverse.map .core ++ (connectLog i).dropLast.flatMap (expand i))
+    else .ended (composed base i react env)
 
 end Lomond.ConnectLink
